@@ -103,6 +103,8 @@ CLAIMED["C18"]["text"] += ' Specs with three options (every ordered triple of ni
 CLAIMED["C18"]["text"] += ' The pod template also references unknown reserved-prefix variables with hyphens, slashes-free odd names and a user variable set to the empty string.'
 CLAIMED["C06"]["text"] += ' Includes a limit-1 scenario with a preemption point between the decisions for two queued Jobs.'
 CLAIMED["C07"]["text"] += " The clock also visits the instant 400 ms before every pending startAfter (a sibling Job's event causes a sync then)."
+CLAIMED["C13"]["text"] += " A pure unit enumerates the effective TTL helper over every combination of Job value and configured default, absent included."
+CLAIMED["C16"]["text"] += " Submitted labels include a stale reserved job-config-uid label."
 CLAIMED["C13"]["text"] += " Includes a Job submitted with somebody else's finalizer that is released after deletion."
 CLAIMED["C04"]["text"] += ' Every case also carries a JobConfig of the same name in another namespace (its own catch-up budget).'
 CLAIMED["C07"]["text"] += ' A Job that is not yet due must not be refused either (Forbid with a future startAfter at the limit).'
